@@ -415,3 +415,15 @@ def run(rep, tier):
     rep.sample({'actions': list(seqs[len(seqs) // 2])})
     if rep.traces_validated < 30 and not rep.viol:
         rep.machinery.append('vacuity guard: too few passing sessions')
+
+
+def replay(rec):
+    """re-execute the recorded action sequence on a fresh interactive shell (no explorer): exit 1 if it fails again"""
+    seq = tuple(rec['case']['actions'])
+    for attempt in range(3):
+        _, problem, done = run_sequence((seq, 'thorough'))
+        print('run %d: %s' % (attempt + 1, 'conditions reached' if problem is None else 'FAILED at %s: %s' % (problem[0], str(problem[1])[:400])))
+        if problem is not None and problem[0] != 'machinery':
+            print('VIOLATION property=C07 replay=(this file) actions=%s' % ' '.join(seq))
+            return 1
+    return 0
